@@ -35,6 +35,32 @@ fn gen_cases(rng: &mut Rng, tier: Tier) -> Vec<Value> {
             if i % 7 == 3 {
                 sp.objectives = gen_objectives(rng, &sp);
             }
+            // one in five: REQUIRED breaks (reserved times). The writer turns reserved time into break activities afterwards
+            // (`insert_reserved_times_as_breaks`), which the model does not cover: those tours are judged by the break clauses of the
+            // specification only (timing split, cost, break entries inside the tour's time span)
+            if i % 5 == 2 {
+                sp.vehicles.iter_mut().for_each(|v| v.shifts.iter_mut().for_each(|s| s.breaks.clear()));
+                let rb: Vec<Value> = sp
+                    .vehicles
+                    .iter()
+                    .map(|v| {
+                        let shifts: Vec<Value> = v
+                            .shifts
+                            .iter()
+                            .map(|s| {
+                                let at = s.start_earliest + rng.range(0, 700);
+                                let dur = rng.range(5, 60);
+                                match &s.end {
+                                    Some(e) if at + dur > e.latest => Value::Null,
+                                    _ => json!({"at": at, "dur": dur}),
+                                }
+                            })
+                            .collect();
+                        json!(shifts)
+                    })
+                    .collect();
+                return json!({"k": "wbreak", "sp": sp, "rb": rb, "gens": 3 + (i % 4) * 4});
+            }
             json!({"k": "wtour", "sp": sp, "gens": if i % 5 == 0 { 0 } else { 3 + (i % 4) * 4 }})
         })
         .collect()
@@ -103,7 +129,22 @@ fn dump_route(problem: &vrp_core::models::Problem, route: &Route) -> Value {
 fn exec(case: &Value) -> Value {
     let sp: SProblem = serde_json::from_value(case["sp"].clone()).unwrap();
     let gens = case["gens"].as_u64().unwrap() as usize;
-    let problem = match sp.read() {
+    let read = if case["k"] == "wbreak" {
+        let (mut p, ms) = sp.to_pragmatic();
+        if let Some(types) = p["fleet"]["vehicles"].as_array_mut() {
+            for (vt, rbs) in types.iter_mut().zip(case["rb"].as_array().unwrap()) {
+                for (shift, rb) in vt["shifts"].as_array_mut().unwrap().iter_mut().zip(rbs.as_array().unwrap()) {
+                    if let Some(at) = rb["at"].as_i64() {
+                        shift["breaks"] = json!([{"time": {"earliest": ts(at), "latest": ts(at)}, "duration": rb["dur"].as_i64().unwrap() as f64}]);
+                    }
+                }
+            }
+        }
+        read_pragmatic_json(&p, &ms)
+    } else {
+        sp.read()
+    };
+    let problem = match read {
         Ok(p) => p,
         Err(codes) => return json!({"error": format!("generated problem is invalid: {codes:?}")}),
     };
